@@ -17,6 +17,7 @@
 #include <math.h>
 #include <limits>
 #include <string.h>
+#include <stdint.h>
 
 #ifdef _WIN32
 #define strncasecmp _strnicmp
@@ -85,10 +86,23 @@ pstrtod(const char *nptr, char **endptr) {
     }
 
   } else {
-    // Start reading decimal digits to the left of the decimal point.
+    // Accumulate the decimal digits exactly, as an integer mantissa and a
+    // decimal exponent, so that the final value is produced by a single
+    // correctly rounded operation (for mantissas below 2^53 and exponents up
+    // to 10^22, both operands are exact doubles).
     bool found_digits = false;
+    uint64_t mantissa = 0;
+    int exponent = 0;
+    const uint64_t mantissa_limit = (UINT64_MAX - 9) / 10;
+
+    // Start reading decimal digits to the left of the decimal point.
     while (isdigit(*p)) {
-      value = (value * 10.0) + (*p - '0');
+      if (mantissa <= mantissa_limit) {
+        mantissa = (mantissa * 10) + (*p - '0');
+      } else {
+        // Too many digits to represent; just keep track of the magnitude.
+        ++exponent;
+      }
       found_digits = true;
       ++p;
     }
@@ -96,12 +110,13 @@ pstrtod(const char *nptr, char **endptr) {
     if (*p == '.') {
       ++p;
       // Read decimal digits to the right of the decimal point.
-      double multiplicand = 0.1;
       while (isdigit(*p)) {
-        value += (*p - '0') * multiplicand;
+        if (mantissa <= mantissa_limit) {
+          mantissa = (mantissa * 10) + (*p - '0');
+          --exponent;
+        }
         ++p;
         found_digits = true;
-        multiplicand *= 0.1;
       }
     }
 
@@ -123,17 +138,32 @@ pstrtod(const char *nptr, char **endptr) {
         ++p;
       }
 
-      // Start reading decimal digits to the left of the decimal point.
-      double evalue = 0.0;
+      int evalue = 0;
       while (isdigit(*p)) {
-        evalue = (evalue * 10.0) + (*p - '0');
+        if (evalue < 100000) {
+          evalue = (evalue * 10) + (*p - '0');
+        }
         ++p;
       }
 
       if (esign == '-') {
-        value /= pow(10.0, evalue);
+        exponent -= evalue;
       } else {
-        value *= pow(10.0, evalue);
+        exponent += evalue;
+      }
+    }
+
+    value = (double)mantissa;
+    if (mantissa != 0) {
+      if (exponent < 0) {
+        if (exponent < -300) {
+          // Avoid overflowing the divisor for subnormal results.
+          value /= pow(10.0, 300.0);
+          exponent += 300;
+        }
+        value /= pow(10.0, (double)-exponent);
+      } else if (exponent > 0) {
+        value *= pow(10.0, (double)exponent);
       }
     }
   }
